@@ -1469,7 +1469,8 @@ public:
          assert(lp_scaler);
 
          for(int i = 0; i < lower().dim(); i++)
-            LPColSetBase<R>::lower_w(i) = lp_scaler->scaleLower(*this, i, newLower[i]);
+            LPColSetBase<R>::lower_w(i) = (newLower[i] > R(-infinity)) ? lp_scaler->scaleLower(*this, i,
+                                          newLower[i]) : newLower[i];
       }
       else
          LPColSetBase<R>::lower_w() = newLower;
@@ -1517,7 +1518,8 @@ public:
          assert(lp_scaler);
 
          for(int i = 0; i < upper().dim(); i++)
-            LPColSetBase<R>::upper_w(i) = lp_scaler->scaleUpper(*this, i, newUpper[i]);
+            LPColSetBase<R>::upper_w(i) = (newUpper[i] < R(infinity)) ? lp_scaler->scaleUpper(*this, i,
+                                          newUpper[i]) : newUpper[i];
       }
       else
          LPColSetBase<R>::upper_w() = newUpper;
@@ -1597,7 +1599,8 @@ public:
          assert(lp_scaler);
 
          for(int i = 0; i < lhs().dim(); i++)
-            LPRowSetBase<R>::lhs_w(i) = lp_scaler->scaleLhs(*this, i, newLhs[i]);
+            LPRowSetBase<R>::lhs_w(i) = (newLhs[i] > R(-infinity)) ? lp_scaler->scaleLhs(*this, i,
+                                        newLhs[i]) : newLhs[i];
       }
       else
          LPRowSetBase<R>::lhs_w() = newLhs;
@@ -1645,7 +1648,8 @@ public:
          assert(lp_scaler);
 
          for(int i = 0; i < rhs().dim(); i++)
-            LPRowSetBase<R>::rhs_w(i) = lp_scaler->scaleRhs(*this, i, newRhs[i]);
+            LPRowSetBase<R>::rhs_w(i) = (newRhs[i] < R(infinity)) ? lp_scaler->scaleRhs(*this, i,
+                                        newRhs[i]) : newRhs[i];
       }
       else
          LPRowSetBase<R>::rhs_w() = newRhs;
